@@ -52,9 +52,7 @@ def reference():
 def load_tables():
     if REPO not in sys.path:
         sys.path.insert(0, REPO)
-    import importlib
     import matid.data.symmetry_data as sd
-    sd = importlib.reload(sd)
     return sd.SPACE_GROUP_INFO, sd.WYCKOFF_SETS, sd.CHIRALITY_PRESERVING_EUCLIDEAN_NORMALIZERS
 
 
